@@ -9,7 +9,7 @@ def run(rep, tier):
     wd = common.workdir("C04")
     quick = tier == "quick"
     path, n_all, n = kspipe.gen_descs(rep, wd, "Core/Gen_C04", "Core/Gen_C04_quick" if quick else "Core/Gen_C04_thorough", "c04",
-                                      per_op=40 if quick else 500, weights={"xp": 6, "xp_assign": 2, "ggsw_xp": 0.5, "ggsw_xp_assign": 0.5})
+                                      per_op=40 if quick else 500, weights={"xp": 6, "xp_assign": 2, "cmux": 3, "cmux_assign": 2, "cmux_assign_neg": 2, "ggsw_xp": 0.5, "ggsw_xp_assign": 0.5})
     events, bad = kspipe.run_and_validate(rep, wd, path, "c04", shards=14, sub="xp")
     nb = kspipe.report(rep, events, bad, {"sem", "key"}, "c04")
     vac = {i for i, k in bad if k == "vacuous"}
